@@ -145,7 +145,7 @@ impl<W: Write> WriteBox<&mut W> for MoovBox {
         if let Some(udta) = &self.udta {
             udta.write_box(writer)?;
         }
-        Ok(0)
+        Ok(size)
     }
 }
 
